@@ -128,7 +128,7 @@ func VerifAnnounceResultSkipsBlacklisted() {
 
 	for i := 0; i < 3; i++ {
 		// pending after apply <=> a dial was started for the peer
-		dialled := st.conns.MovePendingToActive(conn.VerifNewConn(t.hash, verif16Peer(i))) == nil
+		dialled := st.conns.MovePendingToActive(conn.VerifNewConnFor(t.Stat(), verif16Peer(i))) == nil
 		stillBlacklisted := verif.And(listed[i], dur-dt > 0) // remaining time positive
 		verif.Cover("skipped-blacklisted-peer", verif.And(stillBlacklisted, !dialled))
 		verif.Cover("dialled-after-expiry", verif.And(listed[i], dialled))
